@@ -33,6 +33,11 @@ fn addrs(v: &[SocketAddrV4]) -> String {
 /// kind: 0 find_node, 1 get_peers (nobody has peers), 2 get_immutable where some peers hold the value,
 /// 3 get_peers where some peers hold peers
 pub fn lookup_case(r: &mut Rng, n_real: usize, n_phantom: usize, kind: u8) -> String {
+    lookup_case_x(r, n_real, n_phantom, kind, false)
+}
+
+/// `node_id_target`: a find_node lookup for the id of one of the nodes
+pub fn lookup_case_x(r: &mut Rng, n_real: usize, n_phantom: usize, kind: u8, node_id_target: bool) -> String {
     let is_find = kind == 0;
     let mut s = Scn::new(r, n_real, false, Default::default());
     let value: Vec<u8> = format!("immutable value {}", r.below(1000)).into_bytes();
@@ -40,6 +45,9 @@ pub fn lookup_case(r: &mut Rng, n_real: usize, n_phantom: usize, kind: u8) -> St
         let mut b = format!("{}:", value.len()).into_bytes();
         b.extend_from_slice(&value);
         crate::c03::sha1(&b)
+    } else if is_find && (node_id_target || r.chance(1, 3)) {
+        // the id of one of the nodes: it is the closest entry there is (distance 0) and belongs in front of the report
+        s.peers[r.below(n_real as u64) as usize].id
     } else {
         id20(r)
     };
@@ -177,6 +185,9 @@ pub fn generate(seed: u64, scale: usize) -> Cases {
     let mut r = Rng::new(seed ^ 0xC07);
     let mut cases = Cases::new();
     let scale = scale.max(1);
+    // a find_node lookup for the id of a node that answers: that node leads the report
+    cases.push("real8_phantom12_find_node_of_a_node_id", lookup_case_x(&mut r, 8, 12, 0, true));
+    cases.push("real25_phantom10_find_node_of_a_node_id", lookup_case_x(&mut r, 25, 10, 0, true));
     for _ in 0..(3 * scale) {
         for (nr, np) in [(2usize, 0usize), (4, 6), (8, 12), (15, 25), (25, 10)] {
             let kind = r.below(4) as u8;
